@@ -4,11 +4,38 @@
   slices of the ODR Hessian, TLS limit) is in PV/Props/C08Alg.lean.
 -/
 import PV.Props.C08Alg
+import PV.Props.C07
 
 namespace PV
 
 /-- the slice bookkeeping of total_least_squares: rows [:a], columns [a:] of an (a+b) x (a+b)
     matrix have a rows and b columns for every a, b (index arithmetic is total) -/
 theorem c08_slice_shape (a b : Nat) : (a + b) - a = b ∧ min a (a + b) = a := by omega
+
+
+section executable
+open PV.Gls
+
+/-- **C08 (the executable implicit-function step).**  Whatever `iftSens H M` returns satisfies `H X + M = 0`
+    column by column, exactly - the algebraic form of the implicit-function rule (`c08_ift_alg`) evaluated on
+    the Hessian and the mixed derivative of the chi-square at the fitted point. -/
+theorem c08_iftSens_sound (H M X : Mat) (h : iftSens H M = some X) :
+    ∃ cols, X = transpose cols ∧
+      List.Forall₂ (fun col x => mulVec H x = col.map (fun v => -v)) (transpose M) cols := by
+  unfold iftSens at h
+  split at h
+  · cases h
+  · rename_i cols hcols
+    injection h with h
+    refine ⟨cols, h.symm, ?_⟩
+    have : (transpose M).mapM (fun col => solveChecked H (col.map (fun v => -v)))
+        = ((transpose M).map (fun col => col.map (fun v => -v))).mapM (fun c => solveChecked H c) := by
+      rw [List.mapM_map]; rfl
+    rw [this] at hcols
+    have := mapM_solveChecked H _ cols hcols
+    rw [List.forall₂_map_left_iff] at this
+    exact this
+
+end executable
 
 end PV
